@@ -13,12 +13,15 @@ def check(ctx):
     ctx.assume("same runtime-library assumptions as C01; the at-most-once / exactly-once argument from these premises is on paper (DESIGN 4.C04)")
     r = E.discover(ctx.model)
     rr = R.discover(ctx.model, r)
-    E.rule_atomic_counter(ctx, "C04.D1", r)
-    E.rule_counting_agreement(ctx, "C04.D1", r)
-    E.rule_initial_ready_set(ctx, "C04.D1", r)
-    E.rule_queue_effects(ctx, "C04.D1", r, rid_seed="C04.D4")
-    E.rule_queue_internals(ctx, "C04.D1", r)
-    E.rule_enqueue_after_success(ctx, "C04.D1", r)
-    E.rule_catch_all(ctx, "C04.D1", r)
-    E.rule_one_callback_per_dequeue(ctx, "C04.D2", r)
-    R.rule_prune_before_execute(ctx, "C04.D3", rr)
+    ctx.run(E.rule_atomic_counter, "C04.D1", r)
+    ctx.run(E.rule_counting_agreement, "C04.D1", r)
+    ctx.run(E.rule_initial_ready_set, "C04.D1", r)
+    ctx.run(E.rule_queue_effects, "C04.D1", r, rid_seed="C04.D4")
+    ctx.run(E.rule_queue_internals, "C04.D1", r)
+    ctx.run(E.rule_enqueue_after_success, "C04.D1", r)
+    ctx.run(E.rule_catch_all, "C04.D1", r)
+    ctx.run(E.rule_one_callback_per_dequeue, "C04.D2", r)
+    ctx.run(R.rule_prune_before_execute, "C04.D3", rr)
+    ctx.run(E.rule_callbacks_only_via_engine, "C04.D2", r, [rr.runcb, rr.stalecb])
+    ctx.run(E.rule_first_error, "C04.D1", r)
+    ctx.run(R.rule_no_value_on_failure, "C04.D1", rr)
